@@ -147,6 +147,14 @@ macro_rules! is_core {
     };
 }
 
+pub const fn non_negative_i16(x: i16) -> i16 {
+    if x < 0 {
+        0
+    } else {
+        x
+    }
+}
+
 macro_rules! decls {
     (
         list = $list:ident, with = $with:ident, twin = $twin:ident;
@@ -496,6 +504,19 @@ decls! {
     family = "other"; validated = true; core = true;
     gen = |r| if r.chance(1, 4) { None } else { Some(gen_int(r, 0, 9, 0, 255) as u8) };
     corpus = vec![None, Some(0), Some(9), Some(10), Some(255)];
+
+    // `new_unchecked` opted in: the unsafe constructor must stay the only way around the guards
+    #[nutype(new_unchecked, sanitize(trim), validate(not_empty, len_char_max = 8), derive(Debug, Clone, Serialize, Deserialize))]
+    struct UncheckedName(String);
+    family = "string"; validated = true; core = false;
+    gen = |r| gen_string(r, 10);
+    corpus = vec![String::new(), " a ".to_string(), "123456789".to_string(), "  12345678  ".to_string()];
+
+    #[nutype(new_unchecked, const_fn, sanitize(with = non_negative_i16), validate(less = 1000), derive(Debug, Clone, Serialize, Deserialize))]
+    struct UncheckedI16(i16);
+    family = "integer"; validated = true; core = false;
+    gen = |r| gen_int(r, -5, 1005, i16::MIN as i128, i16::MAX as i128) as i16;
+    corpus = vec![-1, 0, 999, 1000, i16::MAX, i16::MIN];
 
     // unit, optional text, nested option, sequence of pairs: inner values whose encodings are
     // "nothing", null, or a container (formats treat these specially)
